@@ -5,7 +5,9 @@ import re
 
 from sa import cfg as cfgmod
 from sa import effects
+from sa import absint
 from sa import minieval
+from sa import norm
 from sa import model
 from sa import universe as unimod
 from sa.model import AnalysisError
@@ -256,7 +258,45 @@ def leaves_of(fi, expr, depth=0, g=None, at=None):
             and expr.func.attr == 'get' and expr.args:
         inner = leaves_of(fi, expr.args[0], depth + 1, g, at)
         return [('remapped', n) for k, n in inner]
+    if isinstance(expr, ast.Call) and isinstance(expr.func, ast.Name) and \
+            expr.args:
+        # a module-level helper that only takes its arguments apart
+        # (returns built from parameters, subscripts and constants): its
+        # result comes from where its arguments come from
+        h = fi.module.functions.get(expr.func.id)
+        if h is not None and h.parent_func is None and \
+                _returns_only_parameter_parts(h):
+            for a in expr.args:
+                out.extend(leaves_of(fi, a, depth + 1, g, at))
+            return out or [('raw', expr)]
     return [('raw', expr)]
+
+
+def _returns_only_parameter_parts(h):
+    ok_names = set(h.params())
+    changed = True
+    while changed:
+        changed = False
+        for s in model.walk_shallow(h.node):
+            if isinstance(s, ast.Assign) and len(s.targets) == 1 and \
+                    isinstance(s.targets[0], ast.Name) and \
+                    s.targets[0].id not in ok_names:
+                if all(n.id in ok_names for n in ast.walk(s.value)
+                       if isinstance(n, ast.Name)) and not any(
+                        isinstance(n, ast.Call) for n in ast.walk(s.value)):
+                    ok_names.add(s.targets[0].id)
+                    changed = True
+    rets = [r for r in model.walk_shallow(h.node)
+            if isinstance(r, ast.Return) and r.value is not None]
+    if not rets:
+        return False
+    for r in rets:
+        for n in ast.walk(r.value):
+            if isinstance(n, ast.Name) and n.id not in ok_names:
+                return False
+            if isinstance(n, ast.Call):
+                return False
+    return True
 
 
 def check_validation(repo, rep, uni, fi, kind, sink):
@@ -390,127 +430,177 @@ def check_capability(repo, rep, uni, fi, kind, sink):
 
 # -- R07d / R07e ---------------------------------------------------------------
 def check_validate_name(repo, rep):
+    """R07d, decided by exhaustive abstract evaluation of _validate_name:
+    names x whitelists x blacklists of up to two opaque entries x every
+    valuation of "entry matches name" (an oracle).  Independent of how the
+    procedure spells its loops / helpers / early exits."""
+    import itertools
     mod = repo.module(YZ)
     fi = mod.func('_validate_name')
-    name = fi.params()[0]
-    g = cfgmod.CFG(fi.node)
-    tests = [n for n in g.nodes if n.kind == 'test']
-    under = None
-    for t in tests:
-        if name in model.names_loaded(t.ast) and '_' in model.norm(t.ast) \
-                and 'settings' not in model.norm(t.ast):
-            try:
-                yes = all(minieval.ev(t.ast, {name: s}) for s in
-                          ('_x', '__class__', '_', '__x', '_a_'))
-                no = not any(minieval.ev(t.ast, {name: s}) for s in
-                             ('x', 'a_b', 'x_', 'name', 'a__b'))
-            except minieval.Unsupported:
-                continue
-            if yes and no:
-                under = t
-                break
-            # a test on the name that is not the underscore rule
-            rep.ob('R07d', fi.key + '/underscore-test', False,
-                   'the name test `%s` does not reject exactly the names '
-                   'that begin with an underscore (evaluated on literals: '
-                   'rejects-all-underscore=%s, accepts-all-plain=%s)' % (
-                       model.norm(t.ast), yes, no),
-                   loc=mod.loc(t.ast), construct=model.norm(t.ast))
-            return
-    if under is None:
-        rep.ob('R07d', fi.key + '/underscore-test', False,
-               '_validate_name has no test rejecting names that begin with '
-               'an underscore', loc=mod.loc(fi.node))
-        return
-    # dominates every normal exit
-    exits = [p for p, lab in g.exit.pred]
-    dom = all(g.dominates(under, e) for e in exits)
-    # the true branch raises on all paths
-    true_succ = [s for s, lab in under.succ if lab == 'true']
-    raises = bool(true_succ) and not any(
-        g.reaches_exit_without(s, []) for s in true_succ)
-    rep.ob('R07d', fi.key + '/underscore-first', dom and raises,
-           'the underscore test must dominate every normal exit of '
-           '_validate_name (dominates=%s) and its true branch must raise on '
-           'all paths (raises=%s)' % (dom, raises), loc=mod.loc(under.ast),
-           construct=model.norm(under.ast))
-    # whitelist: a configured whitelist that does not match raises;
-    # blacklist: a match raises
-    wl = [t for t in tests if model.norm(t.ast) == 'whitelist']
-    ok = False
-    for t in wl:
-        true_succ = [s for s, lab in t.succ if lab == 'true']
-        # every path from the true edge to the normal exit passes a
-        # `return` guarded by a match test
-        match_tests = [m for m in tests if '_match_name_to_entry' in
-                       model.norm(m.ast)]
-        ok = bool(match_tests) and not any(
-            g.reaches_exit_without(s, match_tests) for s in true_succ)
-    rep.ob('R07d', fi.key + '/whitelist-miss-raises', ok,
-           'with a non-empty whitelist a name that matches no entry must '
-           'raise', loc=mod.loc(fi.node))
-    bl_ok = False
-    for loop in [n for n in model.walk_shallow(fi.node)
-                 if isinstance(n, ast.For) and model.norm(n.iter) ==
-                 'blacklist']:
-        for st in loop.body:
-            if isinstance(st, ast.If) and '_match_name_to_entry' in \
-                    model.norm(st.test) and any(
-                        isinstance(x, ast.Raise) for x in st.body):
-                bl_ok = True
-    rep.ob('R07d', fi.key + '/blacklist-hit-raises', bl_ok,
-           'a name matching a blacklist entry must raise',
-           loc=mod.loc(fi.node))
+    matcher = mod.func('_match_name_to_entry')
+    under_names = ('_x', '__class__', '_', '__x', '_a_')
+    plain_names = ('x', 'a_b', 'x_', 'a__b')
+    W = [absint.Sym('w1'), absint.Sym('w2')]
+    B = [absint.Sym('b1'), absint.Sym('b2')]
+    n = 0
+    bad = {'underscore': [], 'whitelist-miss': [], 'blacklist-hit': [],
+           'granted': []}
+    undecided = None
+    for name in under_names + plain_names:
+        for nw in (0, 1, 2):
+            for nb in (0, 1, 2):
+                for val in itertools.product((False, True),
+                                             repeat=nw + nb):
+                    truth = dict(zip([id(x) for x in W[:nw] + B[:nb]], val))
+
+                    def oracle(callee, args, kwargs, _t=truth):
+                        if callee == matcher.key:
+                            return (_t.get(id(args[1]), False),)
+                        return None
+                    settings = {'whitelist': list(W[:nw]),
+                                'blacklist': list(B[:nb])}
+                    it = absint.Interp(repo, mod, oracle)
+                    try:
+                        out = it.run(fi.node, {0: name, 1: settings})
+                    except absint.Unsupported as e:
+                        undecided = str(e)
+                        break
+                    n += 1
+                    wm = any(val[:nw])
+                    bm = any(val[nw:])
+                    desc = 'name=%r whitelist=%s blacklist=%s' % (
+                        name, ['match' if v else 'no-match'
+                               for v in val[:nw]],
+                        ['match' if v else 'no-match' for v in val[nw:]])
+                    raised = out[0] == 'raise'
+                    if name.startswith('_'):
+                        if not raised:
+                            bad['underscore'].append(desc)
+                    elif nw and not wm:
+                        if not raised:
+                            bad['whitelist-miss'].append(desc)
+                    elif not nw and bm:
+                        if not raised:
+                            bad['blacklist-hit'].append(desc)
+                    elif not bm:
+                        if raised:
+                            bad['granted'].append(desc)
+    if undecided is not None:
+        raise AnalysisError('R07d: _validate_name uses a construct outside '
+                            'the modelled fragment (%s): not decided' %
+                            undecided)
+    texts = {
+        'underscore': ('underscore-first', 'a name that begins with an '
+                       'underscore must be refused whatever the lists say'),
+        'whitelist-miss': ('whitelist-miss-raises', 'with a non-empty '
+                           'whitelist a name that matches no entry must be '
+                           'refused'),
+        'blacklist-hit': ('blacklist-hit-raises', 'a name matching a '
+                          'blacklist entry must be refused'),
+        'granted': ('granted-names-pass', 'a plain name that the lists '
+                    'grant must not be refused'),
+    }
+    for k, (label, text) in texts.items():
+        rep.ob('R07d', fi.key + '/' + label, not bad[k],
+               '%s; _validate_name %s for %d scenario(s), e.g. %s' % (
+                   text, 'accepts' if k != 'granted' else 'refuses',
+                   len(bad[k]), bad[k][:2]),
+               loc=mod.loc(fi.node), construct='; '.join(bad[k][:2]))
+    rep.floor('_validate_name scenarios evaluated', n, 400)
 
 
 def check_yaqlized_type(repo, rep):
+    """R07e, by exhaustive abstract evaluation of Yaqlized's checker over
+    (object has settings?) x (the three switches) x (the three requested
+    capabilities)."""
+    import itertools
     mod = repo.module(YZ)
-    fi = mod.functions.get('Yaqlized.__init__.check_value')
-    if fi is None:
-        raise AnalysisError('anchor vanished: Yaqlized.__init__.check_value')
-    g = cfgmod.CFG(fi.node)
-    none_tests = [n for n in g.nodes if n.kind == 'test' and
-                  model.norm(n.ast) in ('settings is None',
-                                        'not settings',
-                                        'settings == None')]
-    ok = False
-    for t in none_tests:
-        true_succ = [s for s, lab in t.succ if lab == 'true']
-        ret_false = all(isinstance(s.ast, ast.Return) and isinstance(
-            s.ast.value, ast.Constant) and s.ast.value.value is False
-            for s in true_succ) and bool(true_succ)
-        positives = [n for n in g.nodes if isinstance(n.ast, ast.Return) and
-                     not (isinstance(n.ast.value, ast.Constant) and
-                          n.ast.value.value is False)]
-        dom = all(g.dominates(t, p) and t is not p for p in positives)
-        # positives must lie on the false edge
-        ok = ret_false and dom and bool(positives)
-    src_ok = any(
-        isinstance(s, ast.Assign) and isinstance(s.value, ast.Call) and
-        repo.resolve(mod, s.value.func, model.scope_locals(fi)) ==
-        'yaql.yaqlization.get_yaqlization_settings'
-        for s in model.walk_shallow(fi.node))
-    rep.ob('R07e', fi.key, ok and src_ok,
-           'Yaqlized.check_value must return False for an object without '
-           'yaqlization settings before any path that accepts it '
-           '(none-test-dominates-accept=%s, settings-from-object=%s)' % (
-               ok, src_ok), loc=mod.loc(fi.node))
-    # the flags are honoured
-    for flag, key in (('can_access_attributes', 'yaqlizeAttributes'),
-                      ('can_call_methods', 'yaqlizeMethods'),
-                      ('can_index', 'yaqlizeIndexer')):
-        found = False
-        for n in g.nodes:
-            if n.kind == 'test' and flag in model.names_loaded(n.ast) and \
-                    key in model.norm(n.ast):
-                ts = [s for s, lab in n.succ if lab == 'true']
-                found = bool(ts) and all(
-                    isinstance(s.ast, ast.Return) and isinstance(
-                        s.ast.value, ast.Constant) and
-                    s.ast.value.value is False for s in ts)
-        rep.ob('R07e', '%s/%s' % (fi.key, flag), found,
-               'capability %s must reject objects whose settings switch '
-               '%s off' % (flag, key), loc=mod.loc(fi.node))
+    init = mod.functions.get('Yaqlized.__init__')
+    if init is None:
+        raise AnalysisError('anchor vanished: Yaqlized.__init__')
+    # the checker handed to GenericType.__init__
+    checker = None
+    for c in model.calls_in(init.node, shallow=True):
+        for k in c.keywords:
+            if k.arg == 'checker':
+                checker = k.value
+        if checker is None and isinstance(c.func, ast.Attribute) and \
+                c.func.attr == '__init__' and c.args:
+            checker = c.args[0]
+    fn = None
+    if isinstance(checker, ast.Name):
+        f2 = mod.functions.get(init.qualname + '.' + checker.id)
+        fn = f2.node if f2 is not None else None
+    elif isinstance(checker, ast.Lambda):
+        fn = checker
+    if fn is None:
+        raise AnalysisError('anchor vanished: the checker Yaqlized hands to '
+                            'GenericType')
+    flags = [p for p in init.params()[1:]]
+    keys = {'can_access_attributes': 'yaqlizeAttributes',
+            'can_call_methods': 'yaqlizeMethods',
+            'can_index': 'yaqlizeIndexer'}
+    if set(flags) != set(keys):
+        raise AnalysisError('Yaqlized.__init__ capabilities changed: %s' %
+                            flags)
+    obj = absint.Sym('obj')
+    n = 0
+    bad_none = []
+    bad_flag = {f: [] for f in flags}
+    bad_ok = []
+    src_ok = [True]
+    for has in (False, True):
+        for sw in itertools.product((False, True), repeat=3):
+            for want in itertools.product((False, True), repeat=3):
+                settings = None if not has else dict(
+                    zip([keys[f] for f in flags], sw))
+                asked = []
+
+                def oracle(callee, args, kwargs, _s=settings):
+                    if callee.endswith('get_yaqlization_settings'):
+                        asked.append(args[0])
+                        return (_s,)
+                    return None
+                it = absint.Interp(repo, mod, oracle)
+                cenv = dict(zip(flags, want))
+                try:
+                    out = it.run(fn, {0: obj, 1: absint.Sym('context'),
+                                      2: absint.Sym('engine')}, cenv)
+                except absint.Unsupported as e:
+                    raise AnalysisError(
+                        'R07e: the Yaqlized checker uses a construct '
+                        'outside the modelled fragment (%s): not decided'
+                        % e)
+                n += 1
+                if not asked or any(a is not obj for a in asked):
+                    src_ok[0] = False
+                accepted = out[0] == 'return' and bool(out[1])
+                desc = 'settings=%s requested=%s' % (
+                    settings, dict(zip(flags, want)))
+                if not has:
+                    if accepted:
+                        bad_none.append(desc)
+                    continue
+                denied = [f for f, w, s in zip(flags, want, sw)
+                          if w and not s]
+                if denied and accepted:
+                    bad_flag[denied[0]].append(desc)
+                if not denied and not accepted:
+                    bad_ok.append(desc)
+    rep.ob('R07e', '%s.check_value' % init.key, not bad_none and src_ok[0],
+           'an object without yaqlization settings must be rejected, and '
+           'the settings must be read from the object itself (accepted '
+           'without settings: %s; settings-from-object=%s)' % (
+               bad_none[:2], src_ok[0]), loc=mod.loc(init.node))
+    for f in flags:
+        rep.ob('R07e', '%s.check_value/%s' % (init.key, f), not bad_flag[f],
+               'capability %s must reject objects whose settings switch %s '
+               'off; accepted: %s' % (f, keys[f], bad_flag[f][:2]),
+               loc=mod.loc(init.node))
+    rep.ob('R07e', '%s.check_value/accepts-granted' % init.key, not bad_ok,
+           'an object whose settings grant every requested capability must '
+           'be accepted; rejected: %s' % bad_ok[:2], loc=mod.loc(init.node))
+    rep.floor('Yaqlized checker scenarios evaluated', n, 72)
 
 
 # -- R07f ----------------------------------------------------------------------
@@ -731,22 +821,30 @@ def check_side_doors(repo, rep):
            'keywords, e.g. dunder names, are dropped)', loc=sysm.loc(cf.node))
     gp = sysm.func('get_property')
     ok = False
-    for s in model.walk_shallow(gp.node):
-        if isinstance(s, ast.Assign) and isinstance(s.value, ast.Call) and \
-                isinstance(s.value.func, ast.Attribute) and \
-                s.value.func.attr == 'format' and isinstance(
-                    s.value.func.value, ast.Constant) and \
-                str(s.value.func.value.value).startswith('#property#'):
-            ok = True
-        if isinstance(s, ast.Assign) and isinstance(s.value, ast.BinOp) and \
-                isinstance(s.value.left, ast.Constant) and \
-                str(s.value.left.value).startswith('#property#'):
-            ok = True
-        if isinstance(s, ast.Assign) and isinstance(
-                s.value, ast.JoinedStr) and s.value.values and isinstance(
-                s.value.values[0], ast.Constant) and \
-                str(s.value.values[0].value).startswith('#property#'):
-            ok = True
+
+    def prefixed(v):
+        if isinstance(v, ast.Call) and isinstance(
+                v.func, ast.Attribute) and v.func.attr == 'format' and \
+                isinstance(v.func.value, ast.Constant) and str(
+                v.func.value.value).startswith('#property#'):
+            return True
+        if isinstance(v, ast.BinOp) and isinstance(v.op, (ast.Add,
+                                                          ast.Mod)) and \
+                isinstance(v.left, ast.Constant) and str(
+                v.left.value).startswith('#property#'):
+            return True
+        if isinstance(v, ast.JoinedStr) and v.values and isinstance(
+                v.values[0], ast.Constant) and str(
+                v.values[0].value).startswith('#property#'):
+            return True
+        return False
+    fparam = gp.params()[0]
+    disp = [c for c in model.calls_in(gp.node, shallow=True)
+            if isinstance(c.func, ast.Name) and c.func.id == fparam]
+    ok = bool(disp) and all(
+        c.args and prefixed(norm.subst_locals(gp.node, c.args[0],
+                                              only_pure=False))
+        for c in disp)
     rep.ob('R07g', gp.key + '/constant-prefix', ok,
            'the fallback `.` on plain objects may only dispatch to '
            'registered functions named #property#<name>',
